@@ -4,8 +4,8 @@ from sxg import *
 import histgen
 from histgen import Rev
 
-# c08's second reader.rs repair (members are taken from the container the merged table names) is not in the tree
-XREF_NAMES_CONTAINER = False
+# reader.rs as repaired by 44beb46: members are taken from the container the merged table names
+XREF_NAMES_CONTAINER = True
 
 
 # ------------------------------------------------------------------ random objects
@@ -105,7 +105,7 @@ def history_class(revs):
                     cls.add('hybrid-update')
             else:
                 if in_os_before and g != 0:
-                    cls.add('objstm-shadow')
+                    cls.add('objstm-stale-generation')
             seen.setdefault(i, []).append((rn, 'plain' if place == 'plain' else 'os', g))
         for (i, g) in r.dels:
             if seen.get(i):
@@ -151,8 +151,9 @@ def gen_base_doc(rng, big=False):
         objs[nxt] = histgen.o_sx(rnd_top(rng, list(objs)))
         nxt += 1
     if big:
-        body = bytes(rng.choice(b'0123456789 \n') for _ in range(70000))
-        objs[nxt] = histgen.o_sx(histgen.stream([], body)); nxt += 1
+        for _ in range(48):
+            body = bytes(rng.choice(b'0123456789 \n') for _ in range(1500))
+            objs[nxt] = histgen.o_sx(histgen.stream([], body)); nxt += 1
     if rng.random() < 0.15:
         objs[nxt] = REF(3, 0); nxt += 1          # an object that is only a reference (clone follows it)
     max_id = nxt - 1 + rng.choice([0, 0, 0, 2])
@@ -214,8 +215,17 @@ def gen_incraw_case(rng):
     if rng.random() < 0.3:
         junk = bytes(rng.choice(b'garbage \n\x00\xff%PD') for _ in range(rng.randint(1, 40)))
     o = histgen.assemble(revs, (1, 0), junk=junk)[-1]
-    ids = sorted({p[0] for r in revs for p in r.puts if p[1] == 0})
-    top = 40
+    latest = {}
+    for r in revs:
+        for p in r.puts:
+            latest[p[0]] = p[1]
+        for (i, g) in r.dels:
+            latest.pop(i, None)
+    # edits replace existing ids or add fresh numbers: only numbers whose current generation is 0 are re-set
+    ids = sorted(i for i, g in latest.items() if g == 0)
+    top = o['maxid']            # the loaded max_id: largest object number of the merged table
+    if any(r.dels for r in revs):
+        top = max([top] + [p[0] for r in revs for p in r.puts])
     steps = gen_steps(rng, ids, top, rng.randint(1, 2), with_page=False)
     return (L('incraw', str(o['hdr']), xb(o['bytes']), o['layout'], steps),
             {'kind': 'incraw' + ('-junk' if junk else ''), 'nontrivial': True, 'class': []})
@@ -256,7 +266,7 @@ def gen_cases(rng, tier):
 
 def classify(line, tags, model_out, impl_out, verdict):
     cls = tags.get('class') or []
-    for c in ('objstm-shadow', 'freed-comes-back', 'hybrid-update'):
+    for c in ('objstm-shadow', 'objstm-stale-generation', 'freed-comes-back', 'hybrid-update'):
         if c in cls:
             return c
     return None
@@ -269,6 +279,8 @@ SPEC = {
     'bin': 'c07',
     'gen_cases': gen_cases,
     'classify': classify,
+    'model_timeout': 300,
+    'impl_timeout': 300,
     'rule': 'random revision histories (1-5 revisions; each replaces a random subset, adds objects, optionally frees some; '
             'per-revision cross-reference table / stream / hybrid; plain objects or object streams; optional bytes before the header) '
             'assembled byte by byte, every prefix loaded and compared with latest-revision-wins; non-trivial = at least 2 revisions',
